@@ -3,16 +3,8 @@ import os, subprocess, itertools
 import core, gen, frames as F
 from props.base import PropBase
 
-CLI_TARGET = os.path.join(core.WORK, "cli-target")
 
-def build_cli(release=False):
-    cmd = ["cargo", "build", "--offline", "-q", "--manifest-path", os.path.join(core.REPO, "Cargo.toml"), "--target-dir", CLI_TARGET]
-    if release:
-        cmd.append("--release")
-    rc, out = core.sh(cmd, timeout=1800)
-    if rc != 0:
-        print(out[-3000:]); print("ERROR: repository does not compile"); raise SystemExit(2)
-    return os.path.join(CLI_TARGET, "release" if release else "debug", "squitterator")
+build_cli = core.build_cli
 
 class C01(PropBase):
     id = "C01"
